@@ -29,7 +29,8 @@ def specs(ctx):
         for at in (0, 1, 2, 3, 4, 6, 9):
             out.append(dict(transfers=[dict(ts, subs=[dict(on_done_script=['set_exception', 'cancel', 'result', 'done'])])],
                             cfg=sysrun.CFG_SMALL, chooser=sysrun.chooser(rng, i + at), cancel=dict(how='future', at=at)))
-    out += sysrun.specs_cancel(ctx, sysrun.KINDS[::3], ['shutdown', 'exit_exc', 'exit_kbi', 'result_kbi'], [3, 25, 60])
+    out += sysrun.specs_cancel(ctx, sysrun.KINDS[::3], ['shutdown', 'exit_exc', 'exit_kbi', 'result_kbi', 'exit_wait_kbi'], [3, 25, 60])
+    out += sysrun.specs_early_cancel(ctx, sysrun.KINDS[::3], seeds=1 if not ctx.thorough() else 4)
     return out
 
 
